@@ -337,21 +337,44 @@ def check(ctx):
             r3.bad(V(r3.id, gid, "no-index", "no index file is generated"))
     wt = P.find("FileWriter::write_typescript_file")
     for f in wt:
-        w = [c for c in f.calls if strip_generics(c.path) == "std::fs::write"]
-        pu = [c for c in f.calls if short_path(c.path) == "Vec::push"]
-        if len(w) == 1 and len(pu) == 1:
-            from rulelib import continue_edge_of_try
-            ce = continue_edge_of_try(f, w[0])
-            if ce and ce in f.edge_dominators(pu[0].bb):
-                r3.ok("generated_files.push only after fs::write(..)? succeeded")
-            else:
-                okflow, how, _ = try_propagated(f, w[0])
-                if okflow and f.dominates(w[0].bb, pu[0].bb) and not f.dominates(pu[0].bb, w[0].bb):
-                    r3.ok("generated_files.push after the propagated write")
-                else:
-                    r3.bad(V(r3.id, f.id, "push-before-write", "the file name is recorded although the write may not have happened", pu[0].file, pu[0].line))
-        else:
+        from rulelib import continue_edge_of_try, blocks_reachable_from
+        from c08 import write_skip_analysis
+        w = [c for c in f.calls if strip_generics(c.path) == "std::fs::write" and c.bb in f.reach_blocks]
+        pu = [c for c in f.calls if short_path(c.path) == "Vec::push" and c.bb in f.reach_blocks]
+        if not w or not pu:
             r3.bad(V(r3.id, f.id, "shape:%d:%d" % (len(w), len(pu)), "unexpected shape of write_typescript_file"))
+            continue
+        # a name is recorded only for a file that is there: no push is reachable from the failing side of a write, and a push reached without
+        # the write is one where the file on disk already equals the content (shared with C08-D2)
+        bad_ = None
+        for wc in w:
+            ce = continue_edge_of_try(f, wc)
+            if ce is None:
+                okflow, how, _ = try_propagated(f, wc)
+                if not okflow:
+                    bad_ = "the result of fs::write is not propagated (%s)" % how
+                continue
+            for lab, tgt in f.succ_edges(ce[0]):
+                if lab != ce[1] and any(p_.bb == tgt or p_.bb in blocks_reachable_from(f, tgt) for p_ in pu):
+                    bad_ = "a push is reachable from the failing side of the write"
+        st_, why_ = write_skip_analysis(P, f)
+        seen_ = {0}
+        work_ = [0]
+        wbs = {c.bb for c in w}
+        while work_:
+            x = work_.pop()
+            if x in wbs:
+                continue
+            for y in f.succ[x]:
+                if y not in seen_:
+                    seen_.add(y)
+                    work_.append(y)
+        if any(p_.bb in seen_ for p_ in pu) and st_ != "justified":
+            bad_ = "a push is reachable without the write (%s)" % why_
+        if bad_:
+            r3.bad(V(r3.id, f.id, "push-before-write", "the file name is recorded although the write may not have happened: " + bad_, pu[0].file, pu[0].line))
+        else:
+            r3.ok("generated_files.push only after fs::write(..)? succeeded or the file already holds the content")
     sites = []
     for sf in S.fns:
         if sf.body is not None and sf.name == "generate_index_file":
